@@ -2,7 +2,7 @@
 from . import c06, c11
 PROP = "C20"
 COQ_FILES = ["Machine.v", "Conv.v", "Conv_proofs.v", "Mem.v", "Mem_proofs.v", "Casts.v", "Casts_proofs.v"]
-DRIVERS = [dict(name="casts32", src="casts.cpp", defines=[], ops=["opq", "opqp", "opqs", "opqcb", "opqcbf", "scast", "pcast"])]
+DRIVERS = [dict(name="casts32", src="casts.cpp", defines=[], ops=["opq", "opqp", "opqs", "opqcb", "opqcbf", "scast", "pcast", "pcastfn"])]
 KINDS = [k for k in c06.KINDS if k != "wchar"]
 GUEST = {"short": "short", "ushort": "ushort", "int": "int", "uint": "uint", "long": "int", "ulong": "uint", "llong": "long", "ullong": "ulong"}
 
@@ -33,6 +33,11 @@ def gen_cases(tier, rng):
     db = [0, 1 << 63, 0x3ff0000000000000, 0x7fefffffffffffff, 0x7ff0000000000000, 0x7ff8000000000000, 1] + [rng.randrange(0, 0x7ff0000000000000) for _ in range(10 if q else 100)]
     for _ in range(40 if q else 400):
         cases.append("opqcbf %d %d %d" % (rng.choice(db), rng.choice(fb), rng.choice([0, 1, -1, (1 << 31) - 1, -(1 << 31), rng.randrange(-(1 << 31), 1 << 31)])))
+    # function pointers cast across the function / data boundary and to another function type
+    for k in (0, 1, 2, 3):
+        for w in ("T", "V"):
+            for to in ("void", "char", "fn2"):
+                cases.append("pcastfn %d %s %s" % (k, w, to))
     # every source/target pair of the integer static cast, both wrappers
     for kt in KINDS:
         for kf in KINDS:
